@@ -153,6 +153,7 @@ pub mod authorizer {
         //@ loop 1 invariant_except_break all_reject: check.kind is Reject ==> forall|k: int| 0 <= k < verif_k0 ==> check_q(self.world, check.kind, conv_rule(#[trigger] check.queries@[k]), usize::MAX, authz_dflt(*old(self)), self.public_key_to_block_id@)
         //@ loop 1 invariant_except_break flag: successful <==> (check.kind is Reject && verif_k0 > 0)
         //@ loop 1 ensures done: successful ==> authz_check_ok(*old(self), i as int)
+        //@ loop 1 ensures failed: !successful ==> !authz_check_ok(*old(self), i as int)
         //@ loop 1 decreases check.queries@.len() - verif_k0
         //@ ghost before "let res = match check.kind {" #0 :: proof { assert(reads == evals); evals = evals + 1; } proof { lemma_tset(rule_trusted_origins.0.inner@, query.scopes@, authorizer_trusted_origins.0.inner@, usize::MAX, self.public_key_to_block_id@); }
         //@ loop 2 invariant frame: frame_eq(*self, *old(self)) && j <= blocks@[0].checks@.len()
@@ -164,6 +165,7 @@ pub mod authorizer {
         //@ loop 3 invariant_except_break all_reject: check.kind is Reject ==> forall|k: int| 0 <= k < verif_k1 ==> check_q(self.world, check.kind, #[trigger] check.queries@[k], 0usize, block_dflt(*old(self), 0), self.public_key_to_block_id@)
         //@ loop 3 invariant_except_break flag: successful <==> (check.kind is Reject && verif_k1 > 0)
         //@ loop 3 ensures done: successful ==> block_check_ok(*old(self), 0, j as int)
+        //@ loop 3 ensures failed: !successful ==> !block_check_ok(*old(self), 0, j as int)
         //@ loop 3 invariant carry: errors@.len() == 0 ==> authz_checks_ok(*old(self))
         //@ loop 3 decreases check.queries@.len() - verif_k1
         //@ ghost before "let mut verif_k1 = 0;" :: proof { lemma_tset(authority_trusted_origins.0.inner@, blocks@[0].scopes@, default_trust(), 0usize, self.public_key_to_block_id@); }
@@ -193,6 +195,7 @@ pub mod authorizer {
         //@ loop 8 invariant_except_break all_reject: check.kind is Reject ==> forall|k: int| 0 <= k < verif_k3 ==> check_q(self.world, check.kind, #[trigger] check.queries@[k], (i + 1) as usize, block_dflt(*old(self), i + 1), self.public_key_to_block_id@)
         //@ loop 8 invariant_except_break flag: successful <==> (check.kind is Reject && verif_k3 > 0)
         //@ loop 8 ensures done: successful ==> block_check_ok(*old(self), i + 1, j as int)
+        //@ loop 8 ensures failed: !successful ==> !block_check_ok(*old(self), i + 1, j as int)
         //@ loop 8 invariant carry: errors@.len() == 0 ==> authz_checks_ok(*old(self)) && authority_checks_ok(*old(self))
         //@ loop 8 decreases check.queries@.len() - verif_k3
         //@ ghost before "let mut j = 0; while j < block.checks.len()" :: proof { lemma_tset(block_trusted_origins.0.inner@, blocks@[i + 1].scopes@, default_trust(), (i + 1) as usize, self.public_key_to_block_id@); }
@@ -210,6 +213,19 @@ pub mod authorizer {
         //@ loop 6 invariant clock: reads == evals
         //@ loop 7 invariant clock: reads == evals
         //@ loop 8 invariant clock: reads == evals
+        //@ ensures failed_list: r is Err && r->Err_0 is FailedLogic && (r->Err_0->FailedLogic_0 is Unauthorized || r->Err_0->FailedLogic_0 is NoMatchingPolicy) ==> failed_listed(*old(self), checks_of(r->Err_0))
+        //@ loop 0 invariant listed: authz_listed(*old(self), errors@, i as int)
+        //@ ghost before "if !successful {" #0 :: let ghost ev0 = errors@;
+        //@ ghost loop 0 end :: proof { if !successful { assert(errors@ =~= ev0.push(errors@[ev0.len() as int])); lemma_push_keeps(ev0, errors@[ev0.len() as int]); if i - 1 <= u32::MAX { assert(has_authz(errors@, (i - 1) as int)); } } }
+        //@ loop 2 invariant listed: authz_listed(*old(self), errors@, old(self).authorizer_block_builder.checks@.len() as int) && block_listed(*old(self), errors@, 0, j as int)
+        //@ ghost before "if !successful {" #1 :: let ghost ev1 = errors@;
+        //@ ghost loop 2 end :: proof { if !successful { assert(errors@ =~= ev1.push(errors@[ev1.len() as int])); lemma_push_keeps(ev1, errors@[ev1.len() as int]); if j - 1 <= u32::MAX { assert(has_block(errors@, 0, (j - 1) as int)); } } }
+        //@ loop 4 invariant listed: authz_listed(*old(self), errors@, old(self).authorizer_block_builder.checks@.len() as int) && (old(self).blocks is Some ==> block_listed(*old(self), errors@, 0, old(self).blocks->Some_0@[0].checks@.len() as int))
+        //@ loop 5 invariant listed: authz_listed(*old(self), errors@, old(self).authorizer_block_builder.checks@.len() as int) && (old(self).blocks is Some ==> block_listed(*old(self), errors@, 0, old(self).blocks->Some_0@[0].checks@.len() as int))
+        //@ loop 6 invariant listed: authz_listed(*old(self), errors@, old(self).authorizer_block_builder.checks@.len() as int) && forall|b: int| 0 <= b < i + 1 ==> #[trigger] block_listed(*old(self), errors@, b, blocks@[b].checks@.len() as int)
+        //@ loop 7 invariant listed: authz_listed(*old(self), errors@, old(self).authorizer_block_builder.checks@.len() as int) && (forall|b: int| 0 <= b < i + 1 ==> #[trigger] block_listed(*old(self), errors@, b, blocks@[b].checks@.len() as int)) && block_listed(*old(self), errors@, i + 1, j as int)
+        //@ ghost before "if !successful {" #2 :: let ghost ev2 = errors@;
+        //@ ghost loop 7 end :: proof { if !successful { assert(errors@ =~= ev2.push(errors@[ev2.len() as int])); lemma_push_keeps(ev2, errors@[ev2.len() as int]); if j - 1 <= u32::MAX && i + 1 <= u32::MAX { assert(has_block(errors@, i + 1, (j - 1) as int)); } }  assert forall|b: int| 0 <= b < i + 1 implies #[trigger] block_listed(*old(self), errors@, b, blocks@[b].checks@.len() as int) by { assert(block_listed(*old(self), ev2, b, blocks@[b].checks@.len() as int)); assert forall|jj: int| 0 <= jj < blocks@[b].checks@.len() && jj <= u32::MAX && b <= u32::MAX && !(#[trigger] block_check_ok(*old(self), b, jj)) implies has_block(errors@, b, jj) by { assert(has_block(ev2, b, jj)); } } }
         //@end
     }
 }
@@ -292,6 +308,49 @@ pub mod aspec {
     pub open spec fn authority_checks_ok(a: Authorizer) -> bool {
         forall|j: int| 0 <= j < a.blocks->Some_0@[0].checks@.len() ==> #[trigger] block_check_ok(a, 0, j)
     }
+    // ---- the list of failed checks (C04: "the exact list of failed checks (origin and index)"): completeness ----
+    pub open spec fn has_authz(errs: Seq<crate::error::FailedCheck>, ii: int) -> bool {
+        exists|k: int| 0 <= k < errs.len() && (#[trigger] errs[k]) is Authorizer && errs[k]->Authorizer_0.check_id == ii as u32
+    }
+    pub open spec fn has_block(errs: Seq<crate::error::FailedCheck>, b: int, j: int) -> bool {
+        exists|k: int| 0 <= k < errs.len() && (#[trigger] errs[k]) is Block && errs[k]->Block_0.block_id == b as u32 && errs[k]->Block_0.check_id == j as u32
+    }
+    pub open spec fn authz_listed(a: Authorizer, errs: Seq<crate::error::FailedCheck>, n: int) -> bool {
+        forall|ii: int| 0 <= ii < n && ii <= u32::MAX && !(#[trigger] authz_check_ok(a, ii)) ==> has_authz(errs, ii)
+    }
+    pub open spec fn block_listed(a: Authorizer, errs: Seq<crate::error::FailedCheck>, b: int, n: int) -> bool {
+        forall|jj: int| 0 <= jj < n && jj <= u32::MAX && b <= u32::MAX && !(#[trigger] block_check_ok(a, b, jj)) ==> has_block(errs, b, jj)
+    }
+    // every failing check of the authorizer, of the authority block and of every other block is in the list
+    // (positions are reported as u32: stated for indices that fit, i.e. fewer than 2^32 checks / blocks)
+    pub open spec fn failed_listed(a: Authorizer, errs: Seq<crate::error::FailedCheck>) -> bool {
+        authz_listed(a, errs, a.authorizer_block_builder.checks@.len() as int)
+        && (a.blocks is Some ==> forall|b: int| 0 <= b < a.blocks->Some_0@.len() ==> #[trigger] block_listed(a, errs, b, a.blocks->Some_0@[b].checks@.len() as int))
+    }
+    pub open spec fn checks_of(e: crate::error::Token) -> Seq<crate::error::FailedCheck> {
+        match e {
+            crate::error::Token::FailedLogic(crate::error::Logic::Unauthorized { policy, checks }) => checks@,
+            crate::error::Token::FailedLogic(crate::error::Logic::NoMatchingPolicy { checks }) => checks@,
+            _ => Seq::empty(),
+        }
+    }
+    pub proof fn lemma_push_keeps(errs: Seq<crate::error::FailedCheck>, x: crate::error::FailedCheck)
+        ensures forall|ii: int| has_authz(errs, ii) ==> #[trigger] has_authz(errs.push(x), ii),
+                forall|b: int, j: int| has_block(errs, b, j) ==> #[trigger] has_block(errs.push(x), b, j),
+                x is Authorizer ==> forall|ii: int| x->Authorizer_0.check_id == ii as u32 ==> #[trigger] has_authz(errs.push(x), ii),
+                x is Block ==> forall|b: int, j: int| x->Block_0.block_id == b as u32 && x->Block_0.check_id == j as u32 ==> #[trigger] has_block(errs.push(x), b, j),
+    {
+        let e2 = errs.push(x);
+        assert forall|ii: int| has_authz(errs, ii) implies #[trigger] has_authz(e2, ii) by {
+            let k = choose|k: int| 0 <= k < errs.len() && (#[trigger] errs[k]) is Authorizer && errs[k]->Authorizer_0.check_id == ii as u32;
+            assert(e2[k] == errs[k]);
+        }
+        assert forall|b: int, j: int| has_block(errs, b, j) implies #[trigger] has_block(e2, b, j) by {
+            let k = choose|k: int| 0 <= k < errs.len() && (#[trigger] errs[k]) is Block && errs[k]->Block_0.block_id == b as u32 && errs[k]->Block_0.check_id == j as u32;
+            assert(e2[k] == errs[k]);
+        }
+        assert(e2[errs.len() as int] == x);
+    }
     // everything authorize_inner reads but must not change
     pub open spec fn frame_eq(a: Authorizer, b: Authorizer) -> bool {
         a.world == b.world && a.policies == b.policies && a.blocks == b.blocks && a.authorizer_block_builder == b.authorizer_block_builder
@@ -311,4 +370,6 @@ pub mod aspec {
 //@canary-requires token::authorizer::Authorizer::query_inner
 //@canary-requires token::authorizer::Authorizer::query_all_inner
 //@canary clock-read-after-break :: token::authorizer::Authorizer::authorize_inner :: let now = Instant::now();\n                if now >= time_limit {\n                    return Err(error::Token::RunLimit(error::RunLimit::Timeout));\n                }\n\n                if res {\n                    match policy.kind {\n                        PolicyKind::Allow => policy_result = Some(Ok(i)),\n                        PolicyKind::Deny => policy_result = Some(Err(i)),\n                    };\n                    break 'policies_test;\n                } ==>> if res {\n                    match policy.kind {\n                        PolicyKind::Allow => policy_result = Some(Ok(i)),\n                        PolicyKind::Deny => policy_result = Some(Err(i)),\n                    };\n                    break 'policies_test;\n                }\n\n                let now = Instant::now();\n                if now >= time_limit {\n                    return Err(error::Token::RunLimit(error::RunLimit::Timeout));\n                }
+//@canary failed-check-wrong-origin :: token::authorizer::Authorizer::authorize_inner :: block_id: 0u32, ==>> block_id: 1u32,
+//@canary failed-check-wrong-index :: token::authorizer::Authorizer::authorize_inner :: block_id: (i + 1) as u32, ==>> block_id: i as u32,
 //@canary-requires token::authorizer::Authorizer::authorize_inner
